@@ -12,6 +12,7 @@ CLAIM = (
     "on newline, column +1 exactly on other characters, reset to a constant on newline) and against the reference numbering on all "
     "class sequences up to length 6; (2) error_message indexes the table with the START offset of atok.get_text_range(error.node), "
     "the table is built from the text of the same atok, and nested errors are rendered by the same function."
+    " KEY (shared with C23): a cached parse is re-used only for exactly the text it was made from, so the reported locations refer to the file that was read."
 )
 NOTE = (
     "Trusted base: the small abstract interpreter for straight-line integer updates and `character == '\\n'` branches (a loop body it "
@@ -89,6 +90,9 @@ def _interp(body: List[ast.stmt], st: Dict[str, Form], is_nl: bool, var: str, ta
 
 def run(ctx) -> None:
     p = ctx.p
+    ctx.rule("KEY", "a cached parse is re-used only for exactly the text it was made from (full sha256 of the unmodified text): locations refer to the file that was read (shared with C23)", floor=3)
+    from . import c23 as _c23
+    _c23.check_key(ctx, "KEY")
     ctx.rule("NUM", "derived transfer function of the position-table loop equals 1-based line/column numbering", floor=3)
     ctx.rule("FLOW", "error_message uses the start offset of the node's text range in the table of the same atok; nested errors recurse", floor=4)
     ctx.rule("ORIGIN", "an error raised because of the type of one operand is attached to that operand's node, not to a sibling operand", floor=25)
